@@ -115,7 +115,19 @@ def build(decl, opts, dfs, base="Schema"):
     if opts["maxp"]:
         okw["max_params"] = opts["maxp"]
     ns["__options__"] = Options(**okw)
-    return type("T", (utype.Schema if base == "Schema" else utype.DataClass,), ns), okw
+    root = utype.Schema if base == "Schema" else utype.DataClass
+    split = decl.get("_split", 0)
+    if split:
+        # the same declaration spread over a base class (the first `split` fields, and the class options when _optbase) and a subclass
+        names = [f["att"] for f in decl["fields"]]
+        bns = {k: v for k, v in ns.items() if k in names[:split]}
+        bns["__annotations__"] = {k: v for k, v in ann.items() if k in names[:split]}
+        sns = {k: v for k, v in ns.items() if k in names[split:]}
+        sns["__annotations__"] = {k: v for k, v in ann.items() if k in names[split:]}
+        (bns if decl.get("_optbase") else sns)["__options__"] = ns["__options__"]
+        Base = type("TB", (root,), bns)
+        return type("T", (Base,), sns), okw
+    return type("T", (root,), ns), okw
 
 
 KINDS = [("DependenciesAbsenceError", "deps"), ("AbsenceError", "absence"), ("AliasConflictError", "alias"), ("ParamsExceedError", "params"),
@@ -165,7 +177,10 @@ def gen_decl(rng, names=("a", "b", "c")):
     n = rng.choice([1, 2, 2, 3])
     shapes = [rng.choice(sorted(SHAPES)) for _ in range(n)]
     fields = [SHAPES[s](a) for s, a in zip(shapes, names)]
-    return {"fields": fields}, "+".join(shapes)
+    decl = {"fields": fields}
+    if n > 1 and rng.random() < 0.3:
+        decl["_split"], decl["_optbase"] = rng.randint(1, n - 1), rng.random() < 0.5      # declared through inheritance
+    return decl, "+".join(shapes)
 
 
 def gen_opts(rng):
@@ -262,8 +277,8 @@ def collect_records(ck, rng, ncases, ninputs):
                 if not r["ok"]:
                     r["allkinds"] = observe(cls, decl, x, okw, collect=True)["allkinds"] or r["allkinds"]
                 runs["dfs" if dfs else "ffs"] = r
-            records.append({"id": "c05-%d" % k, "d": decl, "o": opts, "x": [{"k": key(a), "v": val(b)} for a, b in x],
-                            "ffs": runs["ffs"], "dfs": runs["dfs"], "shape": shape, "otag": otag, "input": repr(x)[:90]})
+            records.append({"id": "c05-%d" % k, "d": {"fields": decl["fields"]}, "o": opts, "x": [{"k": key(a), "v": val(b)} for a, b in x],
+                            "ffs": runs["ffs"], "dfs": runs["dfs"], "shape": shape + ("/inherited" if decl.get("_split") else ""), "otag": otag, "input": repr(x)[:90]})
     return records
 
 
